@@ -150,7 +150,8 @@ func (c04) ID() string { return "C04" }
 func (c04) Rule() string {
 	return "jpeg2000.NewEncoder(reversible single-tile params).Encode -> NewDecoder().Decode; GetPixelData byte-equal, Width/Height/Components/BitDepth/IsSigned equal. " +
 		"cases: (pairs) pairwise-covering sweep over (components 1..4, P 1..16, signed, levels 0..6, code-block w/h 4..64, precinct 0/32..256, progression 0..4, layers 1..6, MCT) on noise; (grid) every size in a small square plus sampled sizes to 40x40 with a seeded configuration; (cb) sizes around code-block multiples; (rand) sizes up to 600; (content) constant/extreme/impulse images (empty code-blocks and packets). " +
-		"non-trivial: encoder accepted the configuration and the decoded samples were compared; distinct = distinct descriptor"
+		"non-trivial: encoder accepted the configuration and the decoded samples were compared; distinct = distinct descriptor" +
+		" (gain) gainmax content: two saturated colours in the sign pattern of one equivalent 5/3 analysis filter (largest legal wavelet coefficients), with and without the colour transform"
 }
 func (c04) Assumptions() []string {
 	return []string{"self round trip through the public Encoder/Decoder objects"}
@@ -340,6 +341,26 @@ func (c04) Build(tier string, seed uint64) []any {
 		c.Layers = gen.Pick(r, 1, 1, 2)
 		cs = append(cs, c)
 	}
+	// (gain) two saturated colours in the sign pattern of one equivalent 5/3 analysis filter:
+	// the largest wavelet coefficients a legal image produces (with the colour transform: beyond
+	// the range the QCD exponents describe), every level count and code-block size
+	nGain := 80
+	if th {
+		nGain = 1200
+	}
+	for i := 0; i < nGain; i++ {
+		r := gen.Sub(seed, "C04", "gain", i)
+		c := &j2kCase{Gen: "gain"}
+		randJ2KConfig(r, c)
+		c.W, c.H = 12+r.Intn(120), 12+r.Intn(120)
+		if i%3 == 0 {
+			c.W, c.H = 16*(1+r.Intn(6)), 16*(1+r.Intn(6))
+		}
+		c.C = gen.Pick(r, 3, 3, 3, 1)
+		c.MCT = c.C == 3 && !r.Chance(1, 5)
+		c.Class = "gainmax"
+		cs = append(cs, c)
+	}
 	for i := range hdrffCases {
 		c := hdrffCases[i]
 		cs = append(cs, &c)
@@ -426,7 +447,8 @@ func (c19) ID() string { return "C19" }
 func (c19) Rule() string {
 	return "jpeg2000 reversible multi-tile round trip (TileWidth/TileHeight set); oracle as C04 plus tile index / in-tile position of the first differing sample. " +
 		"cases: (grid) every (tilesX,tilesY) in [1..8]^2 with an even and an odd tile size each; (partial) tile sizes that leave a last tile 1 sample wide/high; (small) tiles smaller than a code-block, 1xN and Nx1 tile grids; (rand) random tile sizes in [1..w]x[1..h] for images up to 96 (thorough: some up to 600); components {1,3}, P {8,12,16}, levels 0..5, layers 1..3 with and without rate allocation + final lossless layer. " +
-		"non-trivial: more than one tile, encoder accepted, decoded samples compared; distinct = distinct descriptor"
+		"non-trivial: more than one tile, encoder accepted, decoded samples compared; distinct = distinct descriptor" +
+		" (gain) gainmax content: two saturated colours in the sign pattern of one equivalent 5/3 analysis filter (largest legal wavelet coefficients), with and without the colour transform"
 }
 func (c19) Assumptions() []string {
 	return []string{"self round trip through the public Encoder/Decoder objects"}
@@ -547,6 +569,22 @@ func (c19) Build(tier string, seed uint64) []any {
 				c.TH++
 			}
 		}
+		cs = append(cs, c)
+	}
+	// (gain) largest legal wavelet coefficients (gainmax content) on tiled images
+	nGain := 60
+	if tier == "thorough" {
+		nGain = 900
+	}
+	for i := 0; i < nGain; i++ {
+		r := gen.Sub(seed, "C19", "gain", i)
+		c := &j2kCase{Gen: "gain"}
+		randTileConfig(r, c)
+		c.W, c.H = 24+r.Intn(120), 24+r.Intn(120)
+		c.TW, c.TH = c.W/(1+r.Intn(4))+r.Intn(2), c.H/(1+r.Intn(4))+r.Intn(2)
+		c.C = gen.Pick(r, 3, 3, 1)
+		c.MCT = c.C == 3 && !r.Chance(1, 5)
+		c.Class = "gainmax"
 		cs = append(cs, c)
 	}
 	for i := 0; i < nBig; i++ {
